@@ -19,6 +19,8 @@
                                                 logic-sig, analysed by run_all, on which can-close-account reports
                                                 no path while the group verdict reports the transaction
         [single_group_absolute]                 the same transaction configured WITH an absolute index
+        [leaves_justified_subroutine_free]      without callsub/retsub, leaves_justified = some exit is reachable from the entry
+                                                through unvalidated blocks (plain reachability [UReach]; loops cut, no call stack)
    D. non-vacuity: two-member groups of application calls for is-updatable / is-deletable /
       unprotected-updatable / unprotected-deletable (the close-to detectors have theirs in GroupSem2.CloseGroupWitness),
       and the one-transaction group on which both verdicts report.
@@ -434,6 +436,167 @@ Section SingleContract.
   Qed.
 End SingleContract.
 
+(* ---------------------------------------------------------------- leaves_justified without subroutines *)
+(* For a function without callsub / retsub the paths of Spec/Paths.v need no call stack and no visited sets:
+   leaves_justified says that some exit is reachable from the entry through unvalidated blocks only (plain graph
+   reachability, [UReach]) as soon as some exit is unvalidated. *)
+Section PlainReach.
+  Variable f : func.
+  Variable v : nat -> bool.
+
+  Definition subroutine_free : Prop :=
+    forall n blk, fblock f n = Some blk -> f_is_callsub f blk = false /\ f_is_retsub f blk = false.
+
+  Inductive UReach : nat -> Prop :=
+  | UR_entry : v (fn_entry f) = false -> UReach (fn_entry f)
+  | UR_step p pb b : UReach p -> fblock f p = Some pb -> In b (b_next pb) -> v b = false -> UReach b.
+
+  (* a walk over edges of the graph through unvalidated blocks *)
+  Inductive Walk : nat -> list nat -> Prop :=
+  | W_one a : v a = false -> Walk a [a]
+  | W_cons a blk b l : v a = false -> fblock f a = Some blk -> In b (b_next blk) -> Walk b l -> Walk a (a :: l).
+
+  Lemma Walk_head a l : Walk a l -> exists l', l = a :: l'.
+  Proof. intros H. inversion H; subst; eexists; reflexivity. Qed.
+
+  Lemma Walk_snoc : forall a0 l0, Walk a0 l0 -> forall pb b,
+    fblock f (last l0 0) = Some pb -> In b (b_next pb) -> v b = false -> Walk a0 (l0 ++ [b]).
+  Proof.
+    intros a0 l0 H0. induction H0 as [a Ha | a blk b' l Ha Hblk Hin Hw IH]; intros pb b Hpb Hb Hvb.
+    - cbn [last] in Hpb. cbn [app]. exact (W_cons a pb b [b] Ha Hpb Hb (W_one b Hvb)).
+    - destruct (Walk_head _ _ Hw) as [l' ->]. change (last (a :: b' :: l') 0) with (last (b' :: l') 0) in Hpb.
+      cbn [app]. exact (W_cons a blk b' _ Ha Hblk Hin (IH pb b Hpb Hb Hvb)).
+  Qed.
+
+  Lemma Walk_prefix_aux : forall a0 l0, Walk a0 l0 -> forall l1 x l2, l0 = l1 ++ x :: l2 -> Walk a0 (l1 ++ [x]).
+  Proof.
+    intros a0 l0 H0. induction H0 as [a Ha | a blk b l Ha Hblk Hin Hw IH]; intros l1 x l2 E.
+    - destruct l1 as [|y l1]; cbn [app] in E.
+      + inversion E; subst. exact (W_one x Ha).
+      + inversion E as [[E1 E2]]. destruct l1; discriminate E2.
+    - destruct l1 as [|y l1]; cbn [app] in E.
+      + inversion E; subst. exact (W_one x Ha).
+      + inversion E as [[E1 E2]]. cbn [app]. rewrite <- E1. exact (W_cons a blk b _ Ha Hblk Hin (IH l1 x l2 E2)).
+  Qed.
+
+  Lemma Walk_prefix l1 a x l2 : Walk a (l1 ++ x :: l2) -> Walk a (l1 ++ [x]).
+  Proof. intros H. exact (Walk_prefix_aux a _ H l1 x l2 eq_refl). Qed.
+
+  Lemma Walk_unvalidated : forall a0 l0, Walk a0 l0 -> forall x, In x l0 -> v x = false.
+  Proof.
+    intros a0 l0 H0. induction H0 as [a Ha | a blk b l Ha Hblk Hin Hw IH]; intros x Hx.
+    - destruct Hx as [<-|[]]. exact Ha.
+    - destruct Hx as [<-|Hx]; [exact Ha | exact (IH x Hx)].
+  Qed.
+
+  Lemma NoDup_app_l {A} : forall (l l' : list A), NoDup (l ++ l') -> NoDup l.
+  Proof.
+    induction l as [|y l IH]; intros l' H; [constructor|]. cbn [app] in H. inversion H as [|y' l0 Hn Hd]; subst.
+    constructor; [intros Hin; apply Hn; apply in_or_app; left; exact Hin | exact (IH l' Hd)].
+  Qed.
+
+  (* loops can be cut: a reachable block is the end of a walk without repetition *)
+  Lemma ureach_simple : forall b0, UReach b0 -> exists l, Walk (fn_entry f) l /\ NoDup l /\ last l 0 = b0.
+  Proof.
+    intros b0 H0. induction H0 as [He | p pb b Hp IH Hpb Hb Hvb].
+    - exists [fn_entry f]. split; [exact (W_one _ He)|]. split; [repeat constructor; intros []| reflexivity].
+    - destruct IH as (l & Hw & Hnd & Hl). destruct (in_dec Nat.eq_dec b l) as [Hin|Hnin].
+      + apply in_split in Hin. destruct Hin as (l1 & l2 & ->). exists (l1 ++ [b]).
+        split; [exact (Walk_prefix l1 _ b l2 Hw)|]. split; [|apply last_last].
+        replace (l1 ++ b :: l2) with ((l1 ++ [b]) ++ l2) in Hnd by (rewrite <- app_assoc; reflexivity).
+        exact (NoDup_app_l _ _ Hnd).
+      + exists (l ++ [b]). split; [rewrite <- Hl in Hpb; exact (Walk_snoc _ l Hw pb b Hpb Hb Hvb)|].
+        split; [|apply last_last].
+        apply (Permutation_NoDup (Permutation_cons_append l b)). constructor; assumption.
+  Qed.
+
+  Lemma last_visit ex a : last (visit ex a) [] = last ex [] ++ [a].
+  Proof. unfold visit. apply last_last. Qed.
+
+  (* a walk without repetition that ends at an exit is a path of Spec/Paths.v, in any configuration whose innermost
+     activation has visited none of its blocks *)
+  Lemma walk_good : subroutine_free -> forall a l, Walk a l -> forall st ex,
+    NoDup l -> (forall x, In x l -> ~ In x (last ex [])) ->
+    (exists blk, fblock f (last l 0) = Some blk /\ leaf_global f blk = true) ->
+    GoodPathFrom f v (st, ex) a l.
+  Proof.
+    intros Hsf a0 l0 Hw0. induction Hw0 as [a Ha | a blk b l Ha Hblk Hin Hw IH]; intros st ex Hnd Hfresh (lb & Hlb & Hleaf).
+    - cbn [last] in Hlb. apply (GP_leaf f v (st, ex) a lb); [|exact Hlb | exact Hleaf].
+      split; [exact Ha | apply Hfresh; left; reflexivity].
+    - destruct (Walk_head _ _ Hw) as [l' ->].
+      apply (GP_step f v (st, ex) a (st, visit ex a) b).
+      + apply (PS_edge f v st ex a blk b); [|exact Hblk | exact (leaf_false_edge f blk b Hin)
+                                            | exact (proj1 (Hsf a blk Hblk)) | exact (proj2 (Hsf a blk Hblk)) | exact Hin].
+        split; [exact Ha | apply Hfresh; left; reflexivity].
+      + apply IH.
+        * inversion Hnd; assumption.
+        * intros x Hx. rewrite last_visit, in_app_iff. intros [H|[<-|[]]].
+          -- exact (Hfresh x (or_intror Hx) H).
+          -- inversion Hnd; contradiction.
+        * exists lb. split; [exact Hlb | exact Hleaf].
+  Qed.
+
+  Theorem ureach_good_path b blk :
+    subroutine_free -> UReach b -> fblock f b = Some blk -> leaf_global f blk = true ->
+    exists p, GoodPath f v p /\ last p 0 = b.
+  Proof.
+    intros Hsf Hr Hb Hleaf. destruct (ureach_simple b Hr) as (l & Hw & Hnd & Hl). exists l. split; [|exact Hl].
+    apply (walk_good Hsf _ l Hw); [exact Hnd | intros x _ [] |]. exists blk. rewrite Hl. auto.
+  Qed.
+
+  (* conversely, without subroutines every path of Spec/Paths.v is a walk *)
+  Lemma good_walk : subroutine_free -> forall c a l, GoodPathFrom f v c a l -> Walk a l.
+  Proof.
+    intros Hsf c0 a0 l0 H0. induction H0 as [c b blk Hent Hb Hleaf | c b c' b' rest Hstep HG IH].
+    - exact (W_one b (proj1 Hent)).
+    - inversion Hstep as [st ex b1 blk l0 s Hent Hb Hleaf Hop Hst Hs
+                         | st ex b1 blk cs name cb rp Hent Hb Hleaf Hop Hlast Hcb Hrp
+                         | st ex b1 blk b1' Hent Hb Hleaf Hc Hr Hnext]; subst.
+      + destruct (Hsf b blk Hb) as [Hc _]. unfold f_is_callsub in Hc. rewrite Hop in Hc. discriminate.
+      + destruct (Hsf b blk Hb) as [_ Hr]. unfold f_is_retsub in Hr. rewrite Hop in Hr. discriminate.
+      + exact (W_cons b blk b' rest (proj1 Hent) Hb Hnext IH).
+  Qed.
+
+  Lemma walk_ureach : forall a0 l0, Walk a0 l0 -> UReach a0 -> UReach (last l0 0).
+  Proof.
+    intros a0 l0 H0. induction H0 as [a Ha | a blk b l Ha Hblk Hin Hw IH]; intros Hr; [exact Hr|].
+    destruct (Walk_head _ _ Hw) as [l' ->]. change (last (a :: b :: l') 0) with (last (b :: l') 0).
+    apply IH. apply (UR_step a blk b Hr Hblk Hin). apply (Walk_unvalidated _ _ Hw). left. reflexivity.
+  Qed.
+
+  Theorem good_path_ureach p :
+    subroutine_free -> GoodPath f v p ->
+    exists blk, UReach (last p 0) /\ fblock f (last p 0) = Some blk /\ leaf_global f blk = true.
+  Proof.
+    intros Hsf HG. unfold GoodPath in HG.
+    destruct (GoodPathFrom_ends_in_leaf f v _ _ _ HG) as (blk & Hb & Hl). exists blk. split; [|auto].
+    pose proof (good_walk Hsf _ _ _ HG) as Hw. apply (walk_ureach _ _ Hw).
+    apply UR_entry. apply (Walk_unvalidated _ _ Hw). destruct (Walk_head _ _ Hw) as [l' ->]. left. reflexivity.
+  Qed.
+End PlainReach.
+
+(* leaves_justified for subroutine-free functions, in terms of plain reachability *)
+Theorem leaves_justified_subroutine_free f r checks :
+  subroutine_free f ->
+  (leaves_justified f r checks <->
+   ((exists b, fn_leaf_block f b /\ contract_validated r checks b = false) ->
+    exists b blk, UReach f (contract_validated r checks) b /\ fblock f b = Some blk /\ leaf_global f blk = true)).
+Proof.
+  intros Hsf. unfold leaves_justified. split; intros H Hleaf; specialize (H Hleaf).
+  - destruct H as [p HG]. destruct (good_path_ureach f _ p Hsf HG) as (blk & H1 & H2 & H3). exists (last p 0), blk. auto.
+  - destruct H as (b & blk & Hr & Hb & Hl). destruct (ureach_good_path f _ b blk Hsf Hr Hb Hl) as (p & HG & _). exists p. exact HG.
+Qed.
+
+Definition subroutine_freeb (f : func) : bool :=
+  forallb (fun b => negb (f_is_callsub f b) && negb (f_is_retsub f b)) (fn_blocks f).
+
+Lemma subroutine_freeb_sound f : subroutine_freeb f = true -> subroutine_free f.
+Proof.
+  intros H n blk Hb. unfold subroutine_freeb in H. rewrite forallb_forall in H.
+  specialize (H blk (fblock_In f n blk Hb)). apply andb_true_iff in H. destruct H as [H1 H2].
+  apply negb_true_iff in H1. apply negb_true_iff in H2. auto.
+Qed.
+
 (* ====================================================================== *)
 (* D. non-vacuity                                                          *)
 (* ====================================================================== *)
@@ -760,6 +923,22 @@ Proof.
   destruct (H Hn eq_refl Hj (proj1 w_differ)) as [H1 _]. exact (H1 (proj2 w_differ) eq_refl).
 Qed.
 
+(* read through leaves_justified_subroutine_free: in the refuting contract no exit can be reached from the entry through
+   unvalidated blocks, although the exit `done` itself is unvalidated *)
+Corollary refuted_exit_not_reachable :
+  subroutine_free SingleRefuted.fR /\
+  (exists b, fn_leaf_block SingleRefuted.fR b /\ contract_validated SingleRefuted.resR checks_can_close_account b = false) /\
+  ~ (exists b blk, UReach SingleRefuted.fR (contract_validated SingleRefuted.resR checks_can_close_account) b /\
+                   fblock SingleRefuted.fR b = Some blk /\ leaf_global SingleRefuted.fR blk = true).
+Proof.
+  assert (Hsf : subroutine_free fR) by (apply subroutine_freeb_sound; vm_compute; reflexivity).
+  assert (Hleaf : exists b, fn_leaf_block fR b /\ contract_validated resR checks_can_close_account b = false).
+  { exists 3. split; [|vm_compute; reflexivity].
+    exists (mkBlock 3 [11; 12; 13] [] [2; 1]). split; [vm_compute; auto 6|]. split; vm_compute; reflexivity. }
+  split; [exact Hsf|]. split; [exact Hleaf|]. intros Hr. apply leaves_justified_refuted.
+  apply (leaves_justified_subroutine_free fR resR checks_can_close_account Hsf). intros _. exact Hr.
+Qed.
+
 (* ====================================================================== *)
 (* E. one statement for every detector the driver runs in group mode        *)
 (* ====================================================================== *)
@@ -950,6 +1129,9 @@ Print Assumptions single_group_cleared_no_path.
 Print Assumptions single_group_eq_contract_partial.
 Print Assumptions single_group_eq_contract_exact.
 Print Assumptions single_group_absolute.
+Print Assumptions ureach_good_path.
+Print Assumptions good_path_ureach.
+Print Assumptions leaves_justified_subroutine_free.
 Print Assumptions AppGroupWitness.w_updatable.
 Print Assumptions AppGroupWitness.w_deletable.
 Print Assumptions AppGroupWitness.w_unprotected_updatable.
@@ -957,6 +1139,7 @@ Print Assumptions AppGroupWitness.w_unprotected_deletable.
 Print Assumptions AppGroupWitness.w_single_eq.
 Print Assumptions single_group_eq_contract_refuted.
 Print Assumptions leaves_justified_refuted.
+Print Assumptions refuted_exit_not_reachable.
 Print Assumptions group_no_miss_all_partial.
 Print Assumptions group_verdict_all_partial.
 Print Assumptions group_cleared_all_partial.
